@@ -12,7 +12,8 @@ MAP = [  # (substring of the commit subject, property)
  ("empty string in a non-nillable", "C01"),
  ("MessagePack request with str map keys", "C02"), ("null in place of a multi-valued", "C02"),
  ("None return value of complex type", "C02"), ("ModelBase.to_bytes", "C02"),
- ("null member of complex type", "C02"), ("JSON soft validation rejected null", "C02"),
+ ("null member of complex type", "C02"), ("members of a class used more than once", "C03"),
+ ("strict_arrays rejected arrays", "C03"), ("JSON soft validation rejected null", "C02"),
 ]
 kf = json.load(open(os.path.join(HERE, "known_findings.json")))
 log = subprocess.check_output(["git", "-C", "/repo", "log", "--reverse", "--format=%h\t%s"]).decode().splitlines()
